@@ -189,7 +189,12 @@ func main() {
 	sum := vh.NewSummary("C03", o,
 		"(schema, input) pairs run through NewSchema / NewTransform / Read loop under recover() and a watchdog; non-trivial = a MUTATED schema that NewSchema accepts and whose Read loop runs on a damaged (not valid) input, or a schema rejected by the in-code validators (not the JSON-schema layer); distinct by (schema text, input bytes). Plus correspondence cases of the transcribed pure functions (all counted non-trivial when the mechanism is exercised)")
 	cw := vh.NewCaseWriter(o, "C03", "Model.Safety", "c03case", "check_case")
-	x := &runner{o: o, r: r, sum: sum, cw: cw, seenSig: map[string]bool{}, noguard: os.Getenv("C03_NOGUARD") != ""}
+	x := &runner{o: o, r: r, sum: sum, cw: cw, seenSig: map[string]bool{}, noguard: false}
+	for _, g := range strings.Split(os.Getenv("C03_NOGUARD"), ",") {
+		if g != "" {
+			guardsOff[g] = true
+		}
+	}
 	sum.Extra["read_bound"] = fmt.Sprintf("len(input)+%d Reads", readSlack)
 	sum.Extra["watchdog_seconds"] = watchdog.Seconds()
 	sum.Extra["third_party_note"] = "panics/hangs inside gojsonschema, antchfx/xpath, goja, encoding/*, regexp are searched for by this harness only; their absence is not proved"
